@@ -75,4 +75,22 @@ theorem sum_psd {ι n : Type*} [Fintype n] (s : Finset ι) (A : ι → Matrix n 
     rw [Finset.sum_insert ha]
     exact (h a (Finset.mem_insert_self a s)).add (ih (fun i hi => h i (Finset.mem_insert_of_mem hi)))
 
+/-- C07 / C20.  A list filled by nested loops (outer index b, inner index a < n, one append per step): the entry for (b, a)
+sits at position b*n + a.  `POS` is the append counter defined by its one-step recurrences. -/
+theorem pos_closed (n : ℕ) (POS : ℕ → ℕ → ℕ) (h0 : POS 0 0 = 0)
+    (h1 : ∀ b a, POS b (a + 1) = POS b a + 1) (h2 : ∀ b, POS (b + 1) 0 = POS b n) :
+    ∀ b a, POS b a = b * n + a := by
+  have inner : ∀ b a, POS b a = POS b 0 + a := by
+    intro b a
+    induction a with
+    | zero => simp
+    | succ a ih => rw [h1, ih]; ring
+  have outer : ∀ b, POS b 0 = b * n := by
+    intro b
+    induction b with
+    | zero => simp [h0]
+    | succ b ih => rw [h2, inner b n, ih]; ring
+  intro b a
+  rw [inner b a, outer b]
+
 end Pygom
